@@ -521,9 +521,49 @@ def gen_relay():
     return body
 
 
+def gen_startup():
+    """the start-up block of main() in src/main.rs: does ContextManager::default_timeout receive the configured
+    timeouts.idle?  And the constants of src/config.rs / src/context.rs the idle model uses."""
+    main = strip_rust(open(os.path.join(REPO, "src/main.rs")).read())
+    body_main = fn_body(main, "main")
+    a = re.search(r"st_mut\s*\.\s*timeouts\s*=\s*cfg\s*\.\s*timeouts\s*;", body_main)
+    d = re.search(r"ctx_mut\s*\.\s*default_timeout\s*=\s*([^;]*);", body_main)
+    reads_cfg = False
+    if d:
+        rhs = re.sub(r"\s+", "", d.group(1))
+        if rhs == "cfg.timeouts.idle":
+            reads_cfg = a is None or d.start() < a.start()       # cfg.timeouts not yet moved
+        elif rhs == "st_mut.timeouts.idle":
+            reads_cfg = a is not None and a.start() < d.start()
+    cfgsrc = strip_rust(open(os.path.join(REPO, "src/config.rs")).read())
+    m = re.search(r"fn\s+default_timeout\s*\(\s*\)\s*->\s*u64\s*\{\s*(\d+)\s*\}", cfgsrc)
+    default_period = int(m.group(1)) if m else -1
+    ctx = strip_rust(open(os.path.join(REPO, "src/context.rs")).read())
+    it = fn_body(ctx, "is_timeout")
+    zero_disables = before(it, r"if\s+timeout\s*\.\s*is_zero\s*\(\s*\)\s*\{\s*return\s+false", r"last_read")
+    wraps = bool(re.search(r"now\s*-\s*last_read\s*>\s*timeout\s*\.\s*as_millis\s*\(\s*\)", it))
+    saturates = bool(re.search(r"now\s*\.\s*saturating_sub\s*\(\s*last_read\s*\)\s*>\s*timeout\s*\.\s*as_millis\s*\(\s*\)", it))
+    strict_ms = wraps or saturates
+    copy = strip_rust(open(os.path.join(REPO, "src/copy.rs")).read())
+    cb = fn_body(copy, "copy_bidi")
+    both = bool(re.search(r"server_stat\s*\.\s*is_timeout\s*\(\s*idle_timeout\s*\)\s*&&\s*client_stat\s*\.\s*is_timeout\s*\(\s*idle_timeout\s*\)", cb))
+    tick = re.search(r"interval\s*\(\s*Duration\s*::\s*from_secs\s*\(\s*(\d+)\s*\)", cb)
+    B = lambda b: "true" if b else "false"
+    out = "(* GENERATED by gen/translate.py from src/main.rs, src/config.rs, src/context.rs, src/copy.rs.  Do not edit. *)\n"
+    out += "From Coq Require Import NArith.\n"
+    out += "Definition default_timeout_reads_configured_value : bool := %s.\n" % B(reads_cfg)
+    out += "Definition config_default_period_s : N := %d%%N.\n" % max(default_period, 0)
+    out += "Definition zero_period_disables : bool := %s.\n" % B(zero_disables)
+    out += "Definition comparison_is_strict_in_ms : bool := %s.\n" % B(strict_ms)
+    out += "Definition elapsed_saturates : bool := %s.\n" % B(saturates)
+    out += "Definition close_needs_both_directions_idle : bool := %s.\n" % B(both)
+    out += "Definition ticker_period_s : N := %d%%N.\n" % (int(tick.group(1)) if tick else 0)
+    return out
+
+
 def main(which=None):
     changed = []
-    gens = {"Gen_panics.v": lambda: gen_panics()[0], "Gen_profile.v": gen_profile, "Gen_ladder.v": gen_ladder, "Gen_reload.v": gen_reload, "Gen_lb.v": gen_lb, "Gen_callbacks.v": gen_callbacks, "Gen_relay.v": gen_relay}
+    gens = {"Gen_panics.v": lambda: gen_panics()[0], "Gen_profile.v": gen_profile, "Gen_ladder.v": gen_ladder, "Gen_reload.v": gen_reload, "Gen_lb.v": gen_lb, "Gen_callbacks.v": gen_callbacks, "Gen_relay.v": gen_relay, "Gen_startup.v": gen_startup}
     for name, fn in gens.items():
         if which and name not in which:
             continue
